@@ -376,6 +376,43 @@ def run_window_cases(run):
                       actual=m["impl"], model=out[-2500:], no_input=True)
 
 
+# A readable file outside the generators' well-formedness domain (DESIGN.md appendix B: no path listed twice in
+# one segment's metadata), found while proving Props/C03_read.v (lazy_eq_eager_refuted; the hypothesis
+# "no segment's object list names a path twice" of lazy_is_window_of_eager is necessary): two segments, one int32
+# channel; segment 2 starts a new object list and lists the channel TWICE - full index (2 values), then "no data".
+DUP_PATH_FILE = bytes([
+    84, 68, 83, 109, 14, 0, 0, 0, 105, 18, 0, 0, 48, 0, 0, 0, 0, 0, 0, 0, 40, 0, 0, 0, 0, 0, 0, 0,
+    1, 0, 0, 0, 8, 0, 0, 0, 47, 39, 103, 39, 47, 39, 97, 39, 20, 0, 0, 0, 3, 0, 0, 0, 1, 0, 0, 0,
+    2, 0, 0, 0, 0, 0, 0, 0, 0, 0, 0, 0, 1, 0, 0, 0, 2, 0, 0, 0,
+    84, 68, 83, 109, 14, 0, 0, 0, 105, 18, 0, 0, 68, 0, 0, 0, 0, 0, 0, 0, 60, 0, 0, 0, 0, 0, 0, 0,
+    2, 0, 0, 0, 8, 0, 0, 0, 47, 39, 103, 39, 47, 39, 97, 39, 20, 0, 0, 0, 3, 0, 0, 0, 1, 0, 0, 0,
+    2, 0, 0, 0, 0, 0, 0, 0, 0, 0, 0, 0, 8, 0, 0, 0, 47, 39, 103, 39, 47, 39, 97, 39,
+    255, 255, 255, 255, 0, 0, 0, 0, 3, 0, 0, 0, 4, 0, 0, 0])
+
+
+def dup_path_witness(run):
+    """the recorded finding (KNOWN_FINDINGS.txt key dup-path-in-segment): eager and lazy reads of DUP_PATH_FILE"""
+    from nptdms import TdmsFile
+    run.count("dup_path_witness")
+    try:
+        eager = [int(x) for x in TdmsFile.read(io.BytesIO(DUP_PATH_FILE))["g"]["a"][:]]
+        with TdmsFile.open(io.BytesIO(DUP_PATH_FILE)) as f:
+            ch = f["g"]["a"]
+            lazy = {"slice": [int(x) for x in ch[:]], "read_data": [int(x) for x in ch.read_data()],
+                    "window(2,2)": [int(x) for x in ch.read_data(2, 2)], "index": [int(ch[i]) for i in range(len(ch))]}
+    except Exception as ex:     # noqa: BLE001  (a tree that rejects such files has nothing to compare)
+        run.count("dup_path_witness_rejected")
+        return
+    bad = {k: v for k, v in lazy.items() if v != (eager[2:4] if k == "window(2,2)" else eager)}
+    if bad:
+        run.violation("dup-path-in-segment",
+                      "a segment whose metadata lists the same channel twice (full index, then 'no data'): TdmsFile.read "
+                      "gives %r, TdmsFile.open gives %r (object_index maps the path to the LAST listing, so the lazy "
+                      "path skips the segment and returns the zero-filled receiver)" % (eager, bad),
+                      {"op": "paths", "hex": DUP_PATH_FILE.hex(), "kind": "dup_path", "desc": None},
+                      expected=eager, actual=bad)
+
+
 def main():
     run = H.Run("C03")
     run.prove()
@@ -388,6 +425,7 @@ def main():
         check_case(run, rng, work, 0, bytes.fromhex(case["hex"]), case.get("kind", "replay"), case.get("desc"), cases, meta)
         R.run_agree_all(run, cases, meta, "replay", "replay")
         run.finish()
+    dup_path_witness(run)
     for k in range(run.pick(180, 2500)):
         data, kind, desc = gen_case(rng)
         check_case(run, rng, work, k, data, kind, desc, cases, meta)
